@@ -32,7 +32,8 @@ fn wellformed(ch: &mut Choices, case: &mut Case) -> Result<(), String> {
     let cfg = Cfg { max_rules: 5, base_year, dense: ch.chance(70), comment_pct: 60, max_day_offset: 10, ..Cfg::default() };
     let g = gen_case(ch, &cfg)?;
     label_expr(&g.ast, case);
-    let allowed: BTreeSet<String> = g.ast.rules.iter().flat_map(|r| r.comments.iter().map(|c| c.to_string())).collect();
+    // the comments written in the text (from the generator's denotation, not from the parser)
+    let allowed: BTreeSet<String> = g.denoted.rules.iter().flat_map(|r| r.comments.iter().map(|c| c.to_string())).collect();
     let with_comments = g.ast.rules.iter().filter(|r| !r.comments.is_empty()).count();
     let dates = DateGen::new(&g.ast, g.base_year, &g.holidays.model);
     let mut saw_merged = false;
@@ -148,7 +149,7 @@ fn provenance(ch: &mut Choices, case: &mut Case) -> Result<(), String> {
             _ => format!("{} {} ", crate::gen::expr::month_str(MONTHS[probe.month0() as usize]), probe.day()),
         }
     };
-    let comment_sets: [&[&str]; 6] = [&[], &["a"], &["b"], &["c", "a"], &["d"], &["e", "f"]];
+    let comment_sets: [&[&str]; 6] = [&[], &["a"], &["b "], &["c", "a"], &[" d"], &["e", "f"]];
     let mut rules: Vec<(u32, u32, RuleKind, Vec<String>)> = Vec::new();
     let mut text = String::new();
     let mut used = Vec::new();
